@@ -16,7 +16,7 @@ class Contract:
                  raises=None, raises_exactly=None, ensures_raise=None, modifies=(), returns=None,
                  loops=None, inline=False, assert_mode="raise", self_class=None, covers=(),
                  pre_hook=None, post_hook=None, replay=None, note="", may_reenter=None, trace_ensures=(),
-                 ghost=None, max_paths=4000, internal_ensures=()):
+                 ghost=None, max_paths=4000, internal_ensures=(), source_text=None, source_module=None):
         self.target = target
         self.props = list(props)
         self.params = dict(params or {})
@@ -40,9 +40,22 @@ class Contract:
         self.trace_ensures = list(trace_ensures)
         self.ghost = dict(ghost or {})
         self.max_paths = max_paths
+        self.source_text = source_text       # a lemma: a small harness over contracted functions
+        self.source_module = source_module
+        self._fdef = None
 
     @property
     def fdef(self):
+        if self.source_text is not None:
+            if self._fdef is None:
+                import ast as _ast
+                import textwrap
+                mod = source.load_module(self.source_module)
+                node = _ast.parse(textwrap.dedent(self.source_text)).body[0]
+                fd = source.FuncDef(mod, node.name, node, None, self.source_text)
+                fd.key_override = self.target
+                self._fdef = fd
+            return self._fdef
         return source.find_func(self.target)
 
     # -------------------------------------------------------------- caller side
